@@ -113,6 +113,9 @@ def corpus(tier):
         out.append(scripted_plan('downloader', size, {'offset_delta': 1000000}))
         out.append(scripted_plan('downloader', size, {'after_all': 'never_close'}))
         out.append(scripted_plan('downloader', size, {'read_bytes': 0, 'stop_how': 'close'}))
+        # a downloader that stops reading (everything fits the socket buffers) and never ends the connection
+        out.append(scripted_plan('downloader', size, {'read_bytes': 0, 'stop_how': 'stall'}))
+        out.append(scripted_plan('downloader', size, {'read_bytes': max(size // 2, 1), 'stop_how': 'stall'}))
     return out
 
 
@@ -144,7 +147,7 @@ def generate(rng, index, tier):
                 beh = {'chunk': rng.choice([1, 127, 128, 4096]), 'chunk_delay': rng.choice([0.0, 0.001])}
         else:
             if r < 0.3:
-                beh = {'read_bytes': rng.randint(0, size), 'stop_how': rng.choice(('close', 'abort'))}
+                beh = {'read_bytes': rng.randint(0, size), 'stop_how': rng.choice(('close', 'abort', 'stall'))}
             elif r < 0.5:
                 beh = {'offset_delta': rng.choice([1, -1, 1000000])}
             elif r < 0.65:
@@ -617,8 +620,9 @@ def _run_scripted(world: World, plan):
             elif sent is not None and sent < due:
                 world.violate('C04.upload_complete', what='COMPLETE although not all bytes were handed to the socket',
                               size_class=sc, stop_how=beh.get('stop_how'))
-            elif beh.get('after_all') == 'never_close' and not ended:
-                world.violate('C04.upload_complete', what='COMPLETE although the peer never closed', size_class=sc)
+            elif not [c for c in dl.closed_at if c <= mon.complete_at + 1e-9]:
+                world.violate('C04.upload_complete', what='COMPLETE although the peer had not closed the connection',
+                              size_class=sc, stop_how=beh.get('stop_how'), after_all=beh.get('after_all'))
     for rec in world.loop.exc_contexts:
         world.violate('C04.fault_state', what='loop exception handler', exc=rec.get('exc_type'), coro=rec.get('coro'),
                       shape='scripted')
